@@ -12,7 +12,10 @@ suite `roundtrip` (C04): real derived types → `from_type` → arrays → value
           (2) the traced schema + the recorded rows + the implementation's arrays form a case of the `build` suite:
               the operational builder model `toMarrow ext fields rows` reproduces the outcome class, the decoded
               content of the arrays (`decodeAll`) and `decodeAll(arrays) = interp(rows)` (C01) / `WF` (C03);
-          (3) `from_type` fails exactly under the documented preconditions of the type (declared per zoo type:
+          (3) the traced schema respects the options (`violatedOption`: List vs LargeList, Utf8 vs LargeUtf8,
+              Dictionary only when asked for, Null only with `allow_null_fields`, Map only without `map_as_struct`);
+              struct fields are traced in the order the derive presents them (`fieldOrderOk`);
+              `from_type` fails exactly under the documented preconditions of the type (declared per zoo type:
               maps need `map_as_struct(false)`, Null positions need `allow_null_fields`, enums without data need
               `enums_without_data_as_strings` or `allow_null_fields`): `SaModel.Roundtrip.traceRefused`.
   spec C04 : `from_type` succeeded, `to_marrow` succeeded and EVERY front end returned a sequence equal to the
@@ -122,6 +125,12 @@ def handle (j : Json) : Except String Verdict := do
   if let some r := refused then
     return { agree := false, spec := [("C04", "na"), ("C16", "pass")], sig := s!"roundtrip/from_type/unexpected-ok/{cls}", tags := baseTags,
              why := s!"from_type accepted a type it is documented to refuse ({r})" }
+  if let some w := violatedOptionRoot opts fields then
+    return { agree := false, spec := [("C04", "na"), ("C16", "pass")], sig := s!"roundtrip/from_type/option-not-respected/{w}", tags := baseTags,
+             why := s!"the traced schema contains a node the option {w} does not allow" }
+  if !rows.all (fieldOrderOkRow fields) then
+    return { agree := false, spec := [("C04", "na"), ("C16", "pass")], sig := s!"roundtrip/from_type/field-order/{cls}", tags := baseTags,
+             why := "a struct of the traced schema does not list its fields in the order the derived Serialize presents them" }
   -- ---- the builder model on (traced schema, recorded rows) vs the implementation's arrays
   let bv ← Driver.Suites.Build.handle j
   let buildBad := !bv.agree || bv.spec.lookup "C01" == some "fail" || bv.spec.lookup "C03" == some "fail"
